@@ -501,6 +501,53 @@ def pair_shard(item, deadline):
     return acc
 
 
+def long_request_case(level, nsegs, window=1):
+    """A WriteProperty of a long description sent to the device in `nsegs` hand-made segments of 40 octets (the tester sends
+    the next `window` segments after every SegmentACK it is owed): the device acknowledges as it goes and answers the whole
+    request exactly once, also when the sequence number wraps at 256."""
+    invoke = 77
+    n_text = 40 * nsegs - 14
+    data = H("0C00800001" + "191C" + "3E") + bytes([0x75, 0xFE, (n_text + 1) >> 8, (n_text + 1) & 0xFF, 0x00]) + b"x" * n_text + H("3F")
+    chunks_ = [data[i:i + 40] for i in range(0, len(data), 40)]
+    dev = Device(level)
+    start = len(dev.sent())
+    problems = []
+    for k, chunk in enumerate(chunks_):
+        mor = k < len(chunks_) - 1
+        apdu = bytes([0x08 | (0x04 if mor else 0), 0x05, invoke, k % 256, window]) + (bytes([0x0F]) if True else b"") + chunk
+        dev.inject(wrap(level, H(NP_REQ) + apdu))
+    dev.settle()
+    sent = replies_of(dev, level, start)
+    acks = [a for (dst, n, a, raw) in sent if a is not None and a["type"] == 4 and a["invoke"] == invoke]
+    finals = [a for (dst, n, a, raw) in sent if a is not None and a["invoke"] == invoke and a["type"] in (2, 3, 5, 6, 7)
+              and to_tester(dst, level)]
+    if len(finals) != 1:
+        problems.append(("long-segmented-request-answered-%d-times" % len(finals),
+                         {"segments": len(chunks_), "segment acks": len(acks), "replies": [a["name"] for a in finals]}))
+    elif finals[0]["type"] == 7:
+        problems.append(("long-segmented-request-aborted", {"segments": len(chunks_), "segment acks": len(acks)}))
+    dev.run_quiet()
+    for k, v in dev.residue().items():
+        problems.append(("residue:%s" % k, {"what": v}))
+    return dev, problems, ["%d acks" % len(acks)] + [a["name"] for a in finals]
+
+
+def long_shard(item, deadline):
+    acc = Acc()
+    for (level, nsegs, window) in item:
+        dev, problems, obs = long_request_case(level, nsegs, window)
+        acc.case((level, "long-request", nsegs, window))
+        acc.traces += 1
+        acc.transitions += nsegs + 1
+        acc.state((level, "long-request", tuple(obs), bool(problems)))
+        acc.outcome("long-request:%s" % ("ok" if not problems else problems[0][0]))
+        for prob, detail in problems:
+            acc.fail(root_cause(dev, "long-request:" + prob), {"problem": prob, "detail": detail, "level": level, "segments": nsegs,
+                                                               "window": window, "device_sent": obs},
+                     {"long_request": True, "level": level, "nsegs": nsegs, "window": window})
+    return acc
+
+
 FOREIGN_LEVELS = ("ipf:silent", "ipf:acked", "ipf:nak")
 
 
@@ -579,6 +626,10 @@ def run(tier, seed, deadline):
             nb.append((level, o, False, "successor"))
     acc.info["neighbour cases"] = len(nb)
     run_shards(nb_shard, chunks(nb, 8), deadline, into=acc)
+    # segmented requests of 2 .. 300 segments (the sequence number wraps at 256)
+    longs = [(level, n, w) for level in ("lan", "ip") for n in (2, 3, 255, 256, 257, 300) for w in (1, 4)]
+    acc.info["long segmented requests"] = len(longs)
+    run_shards(long_shard, [[x] for x in longs], deadline, into=acc)
     # pairs of valid frames
     pairs = [(level, a, b) for level in ("lan", "ip") for a in BASES for b in BASES]
     # what the tester announced about itself (I-Am: no segmentation / both) before it asks with "segmented response accepted"
@@ -611,6 +662,10 @@ def run(tier, seed, deadline):
 
 def replay(case):
     vclock.install()
+    if case.get("long_request"):
+        dev, problems, obs = long_request_case(case["level"], case["nsegs"], case["window"])
+        return not problems, "level=%s WriteProperty in %d segments, window %d\ndevice sent=%r\nproblems=%r" % (
+            case["level"], case["nsegs"], case["window"], obs, problems)
     if case.get("pair") and case["first"] in ("segment-first", "segment-after"):
         dev, problems, obs = collision_case(case["level"], case["then"], case["first"])
         return not problems, "level=%s lone first segment and %s with the same invoke ID (%s)\ndevice sent=%r\nproblems=%r" % (
